@@ -298,6 +298,21 @@ fn compiled_for_probe(lex: &[u8], mat: &[u8], chr: &str, unk: &[u8]) -> vibrato:
     SystemDictionaryBuilder::from_readers(lex, mat, chr.as_bytes(), unk)
 }
 
+/// Replaces the trained weights by random integers in [-1000, 1000] (same structure): strong
+/// cancellations between templates, single weights larger than every merged weight, zeros.
+fn randomise_weights(m: &mut Model, rng: &mut Rng) {
+    let mut raw = m.verif_raw();
+    for w in raw.weights.iter_mut() {
+        *w = match rng.below(8) {
+            0 => 0.0,
+            1 => 1000.0,
+            2 => -1000.0,
+            _ => rng.range(-1000, 1000) as f64,
+        };
+    }
+    m.verif_set_raw(&raw);
+}
+
 fn quantise(m: &mut Model) {
     let mut raw = m.verif_raw();
     let maxabs = raw.weights.iter().fold(0f64, |a, w| a.max(w.abs()));
@@ -313,9 +328,10 @@ fn reload(m: &Model) -> Option<Model> {
     Model::read_model(buf.as_slice()).ok()
 }
 
-fn run_training(ti: &TrainIn, hist: &[u8], out: &mut Vec<Value>) {
-    let r = catch_unwind(AssertUnwindSafe(|| -> Result<Vec<Value>, String> {
-        let mut log = vec![];
+fn run_training(ti: &TrainIn, hist: &[u8], out: &mut Vec<Value>, randw: Option<u64>) {
+    // events are pushed as they happen, so that what preceded a panic stays in the trace
+    let r = catch_unwind(AssertUnwindSafe(|| -> Result<(), String> {
+        let log = &mut *out;
         let shell = ti.adict_shell();
         let cfg = TrainerConfig::from_readers(ti.lex_text().as_bytes(), shell.render_char_def().as_bytes(), ti.unk_text().as_bytes(),
                                               feature_def(&ti.templates).as_bytes(), rewrite_def3(&ti.rules).as_bytes()).map_err(|e| e.to_string())?;
@@ -323,6 +339,9 @@ fn run_training(ti: &TrainIn, hist: &[u8], out: &mut Vec<Value>) {
         let corpus = Corpus::from_reader(ti.corpus_text().as_bytes()).map_err(|e| e.to_string())?;
         let mut model = trainer.train(corpus).map_err(|e| e.to_string())?;
         quantise(&mut model);
+        if let Some(sd) = randw {
+            randomise_weights(&mut model, &mut Rng::new(sd));
+        }
         log.push(json!({"ev": "tsession", "in": ti.to_json()}));
         log.push(json!({"ev": "model", "m": model_json(&model)}));
         // the history: 0 = generate, 1 = write;read (continue on the reloaded copy), 2 = add the user lexicon
@@ -331,9 +350,11 @@ fn run_training(ti: &TrainIn, hist: &[u8], out: &mut Vec<Value>) {
         for &op in hist {
             match op {
                 0 => {
-                    log.push(gen_event(ti, &mut mem, "mem"));
+                    let e = gen_event(ti, &mut mem, "mem");
+                    log.push(e);
                     if let Some(d) = disk.as_mut() {
-                        log.push(gen_event(ti, d, "disk"));
+                        let e = gen_event(ti, d, "disk");
+                        log.push(e);
                     }
                 }
                 1 => {
@@ -351,12 +372,15 @@ fn run_training(ti: &TrainIn, hist: &[u8], out: &mut Vec<Value>) {
                 }
             }
         }
-        Ok(log)
+        Ok(())
     }));
     match r {
-        Ok(Ok(log)) => out.extend(log),
+        Ok(Ok(())) => {}
         Ok(Err(e)) => out.push(json!({"ev": "train_err", "msg": e})),
-        Err(_) => out.push(json!({"ev": "panic", "op": {"op": "train"}, "in": ti.to_json()})),
+        Err(e) => {
+            let msg = if let Some(s) = e.downcast_ref::<String>() { s.clone() } else if let Some(s) = e.downcast_ref::<&str>() { s.to_string() } else { "panic".into() };
+            out.push(json!({"ev": "panic", "op": {"op": "train"}, "msg": msg}))
+        }
     }
 }
 
@@ -365,6 +389,7 @@ pub fn record(a: &HashMap<String, String>) -> i32 {
     let n: usize = a.get("n").and_then(|s| s.parse().ok()).unwrap_or(10);
     let out = a.get("out").expect("--out");
     let bare = a.get("bare").map(|s| s == "1").unwrap_or(false);
+    let randw = a.get("randw").map(|s| s == "1").unwrap_or(true);
     let mut rng = Rng::new(seed ^ 0x7A14);
     let mut evs = vec![];
     let mut hists: Vec<Vec<u8>> = vec![vec![0, 1, 0, 2, 0], vec![0, 0, 2, 0, 1, 0], vec![2, 0, 1, 0, 0], vec![1, 0, 2, 0, 1, 2, 0]];
@@ -376,13 +401,18 @@ pub fn record(a: &HashMap<String, String>) -> i32 {
             v["hist"].as_array().unwrap().iter().map(|x| x.as_u64().unwrap() as u8).collect()
         }).collect();
     }
+    let skip: usize = a.get("skip").and_then(|s| s.parse().ok()).unwrap_or(0);
     let off: usize = a.get("offset").and_then(|s| s.parse().ok()).unwrap_or(0);
     for i in 0..n {
         let mut ti = gen_train_in(&mut rng, bare);
         if a.get("hists").is_some() && ti.user.is_empty() {
             ti.user.push((vec![0x61, 0x62], 0, 0, 0, vec!["N".to_string()]));   // histories with add-user need rows
         }
-        run_training(&ti, &hists[(off + i) % hists.len()], &mut evs);
+        if i < skip {
+            continue;       // inputs are drawn from one sequential generator: skipping keeps later sessions identical
+        }
+        let rw = if randw && i % 2 == 1 { Some(seed.wrapping_mul(31).wrapping_add(i as u64)) } else { None };
+        run_training(&ti, &hists[(off + i) % hists.len()], &mut evs, rw);
     }
     let mut f = std::io::BufWriter::new(std::fs::File::create(out).expect("create"));
     for e in &evs {
